@@ -243,6 +243,7 @@ func RunWorker(t *testing.T, cfg *WorkerConfig) *WorkerOutput {
 		return out
 	}
 	propSeed := rt.MixS(cfg.Seed, cfg.Property)
+	nondet := ""
 	for i := cfg.Worker; i < cfg.MaxRuns; i += cfg.Workers {
 		if cfg.BudgetS > 0 && time.Since(startWall).Seconds() > cfg.BudgetS {
 			break
@@ -277,12 +278,21 @@ func RunWorker(t *testing.T, cfg *WorkerConfig) *WorkerOutput {
 				raceViolation = true
 			}
 		}
-		if cfg.Recheck > 0 && (i/cfg.Workers)%cfg.Recheck == 0 {
+		if cfg.Recheck > 0 && (i/cfg.Workers)%cfg.Recheck == 0 && len(res.Violations) == 0 && !raceViolation {
 			again := Execute(t, plan.Clone(), opts)
 			out.Rechecked++
 			if again.Log.Hash() != res.Log.Hash() {
-				out.Infra = fmt.Sprintf("run %d seed %#x is not deterministic: two executions of the same plan gave different event logs\n%s", i, runSeed, firstDiff(res.Log.Lines, again.Log.Lines))
-				break
+				if len(again.Violations) > 0 {
+					// the second execution of the same plan shows a violation the
+					// first one did not: report it
+					res = again
+				} else if nondet == "" {
+					// Not fatal yet: a library that keeps state across requests
+					// makes runs depend on earlier runs; if that breaks a property
+					// a later run reports it. Without any violation this is
+					// reported as harness trouble at the end.
+					nondet = fmt.Sprintf("run %d seed %#x is not deterministic: two executions of the same plan gave different event logs\n%s", i, runSeed, firstDiff(res.Log.Lines, again.Log.Lines))
+				}
 			}
 		}
 		if len(out.Samples) < 2 && len(plan.Steps) <= 12 {
@@ -343,6 +353,9 @@ func RunWorker(t *testing.T, cfg *WorkerConfig) *WorkerOutput {
 		rep.Replay = path
 		out.Violations = append(out.Violations, rep)
 		break
+	}
+	if nondet != "" && len(out.Violations) == 0 && out.Infra == "" {
+		out.Infra = nondet
 	}
 	out.Classes = sortedKeys(out.Stats.Classes)
 	out.NonTrivial = sortedKeys(out.Stats.NonTrivial)
